@@ -749,8 +749,18 @@ func TestRandomScripts(t *testing.T) {
 			ed := es[rapid.IntRange(0, len(es)-1).Draw(rt, "edit")]
 			ns := s
 			ns.R1, ns.R2 = clone(s.R1), clone(s.R2)
-			ed.Apply(&ns)
-			if !encodable(ns) {
+			applied := func() (ok bool) {
+				// an edit is written against the valid script; after an earlier edit it may find the
+				// package or field it alters gone - then it is skipped
+				defer func() {
+					if recover() != nil {
+						ok = false
+					}
+				}()
+				ed.Apply(&ns)
+				return true
+			}()
+			if !applied || !encodable(ns) {
 				continue
 			}
 			s = ns
